@@ -5,6 +5,7 @@ File emitter
 from ast import Module
 from importlib import import_module
 from importlib.util import find_spec
+from os import path
 
 import cdd.shared.source_transformer
 
@@ -56,6 +57,14 @@ def file(node, filename, mode="a", skip_black=False):
                 string_normalization=False,
             ),
         )
+    if "a" in mode and path.isfile(filename):
+        # what is already there need not end in a newline
+        with open(filename, "rb") as f:
+            f.seek(0, 2)
+            if f.tell():
+                f.seek(-1, 2)
+                if f.read(1) not in (b"\n", b"\r"):
+                    src = "\n\n" + src
     with open(filename, mode) as f:
         f.write(src)
 
